@@ -2950,6 +2950,7 @@ def _apply_sifting(
     # using `set` injects some randomness
     levels = bdd._levels()
     names = set(bdd.vars)
+    m = n
     for var in names:
         k = _reorder_var(bdd, var, levels)
         m = len(bdd)
